@@ -194,7 +194,7 @@ impl Response {
         {
             let mut body: Vec<u8> = Vec::new();
 
-            while let Some(chunk) = parse_chunk(&mut reader) {
+            while let Some(chunk) = parse_chunk(&mut reader)? {
                 body.extend(chunk);
             }
 
@@ -268,17 +268,25 @@ impl From<Response> for Vec<u8> {
 }
 
 /// Parses a chunk using the chunked transfer encoding.
-fn parse_chunk<T>(stream: &mut BufReader<T>) -> Option<Vec<u8>>
+/// Reads one chunk of a chunked body.
+/// Returns `Ok(None)` for the terminating zero-length chunk and an error if the stream ends or is malformed before that.
+fn parse_chunk<T>(stream: &mut BufReader<T>) -> Result<Option<Vec<u8>>, ResponseError>
 where
     T: Read,
 {
     let mut length_line_buf: Vec<u8> = Vec::new();
-    stream.read_until(0xA, &mut length_line_buf).ok()?;
+    stream
+        .read_until(0xA, &mut length_line_buf)
+        .map_err(|_| ResponseError::Stream)?;
+    let length_line = std::str::from_utf8(&length_line_buf)
+        .map_err(|_| ResponseError::Response)?
+        .strip_suffix("\r\n")
+        .ok_or(ResponseError::Response)?;
+    safe_assert(!length_line.is_empty() && length_line.bytes().all(|b| b.is_ascii_hexdigit()))?;
     let length: usize =
-        usize::from_str_radix(std::str::from_utf8(&length_line_buf).ok()?.trim_end(), 16).ok()?;
+        usize::from_str_radix(length_line, 16).map_err(|_| ResponseError::Response)?;
 
-    if length == 0 {
-        stream.read_exact(&mut [0u8, 0]).ok()?;
+    let chunk = if length == 0 {
         None
     } else {
         let mut content_buf: Vec<u8> = Vec::new();
@@ -286,16 +294,21 @@ where
             .by_ref()
             .take(length as u64)
             .read_to_end(&mut content_buf)
-            .ok()?;
-        if read != length {
-            return None;
-        }
-        stream.read_exact(&mut [0u8, 0]).ok()?;
+            .map_err(|_| ResponseError::Stream)?;
+        safe_assert(read == length).map_err(|_| ResponseError::Stream)?;
         Some(content_buf)
-    }
+    };
+
+    // Every chunk, including the last one, is followed by CRLF
+    let mut crlf = [0u8; 2];
+    stream
+        .read_exact(&mut crlf)
+        .map_err(|_| ResponseError::Stream)?;
+    safe_assert(&crlf == b"\r\n")?;
+
+    Ok(chunk)
 }
 
-/// Asserts that the condition is true, returning a `Result`.
 fn safe_assert(condition: bool) -> Result<(), ResponseError> {
     match condition {
         true => Ok(()),
